@@ -47,7 +47,7 @@ MOD = st.fixed_dictionaries({'target': st.sampled_from(['file', 'file', 'file', 
 
 
 def strategy(tier):
-    w = {'mixed': 4, 'growshrink': 4, 'deep': 1, 'links': 5, 'boot': 1, 'hybrid': 0}
+    w = {'mixed': 4, 'growshrink': 4, 'deep': 1, 'links': 5, 'boot': 1, 'hybrid': 0, 'exactfill': 4}
     return st.tuples(gen.any_profile(reopen_ok=False, weights=w), st.lists(MOD, min_size=1, max_size=3))
 
 
